@@ -4,7 +4,7 @@ from vlib import common as C
 from vlib.diff import Case, differential, run_batch, san_site
 
 LEVEL = "proof"
-MODELLED_FUNCS = {'src/json/iwjser.c': ['_jbl_unescape_json_string', '_jbl_parse_json_key'], 'src/json/iwjson.c': ['_jbl_ptr_pool', 'iwjson_ftoa'], 'src/utils/iwconv.c': ['iwitoa', 'iwatoi2', 'iwafcmp', 'iwhex2bin'], 'src/re/vm.c': ['vm_add_thread', 'vm_run_with_threads'], 'src/re/parse.c': ['push', 'consume', 'concatenate', 'parse_char_class', 'parse_interval', 'parse_context', 'estimate_nodes', 'parse_with_nodes', 'cregex_parse'], 'src/re/compile.c': ['count_instructions', 'node_is_anchored', 'compile_char_class', 'compile_context', 'compile_node_with_program', 'estimate_instructions', 'cregex_compile_node'], 'src/re/iwre.c': ['iwre_create']}
+MODELLED_FUNCS = {'src/json/iwjser.c': ['_jbl_unescape_json_string', '_jbl_parse_json_key'], 'src/json/iwjson.c': ['_jbl_ptr_pool', 'iwjson_ftoa'], 'src/utils/iwconv.c': ['iwitoa', 'iwatoi2', 'iwafcmp', 'iwhex2bin'], 'src/re/vm.c': ['vm_add_thread', 'vm_run_with_threads'], 'src/re/parse.c': ['push', 'consume', 'concatenate', 'parse_char_class', 'parse_interval', 'parse_context', 'estimate_nodes', 'parse_with_nodes', 'cregex_parse'], 'src/re/compile.c': ['count_instructions', 'node_is_anchored', 'compile_char_class', 'compile_context', 'compile_node_with_program', 'estimate_instructions', 'cregex_compile_node'], 'src/re/iwre.c': ['iwre_create'], 'src/utils/iwini.c': ['rstrip', 'lskip', 'find_chars_or_comment', 'strncpy0', 'iwini_parse_stream', 'ini_reader_string', 'iwini_parse_string'], 'src/utils/iwutils.c': ['iwu_replace']}
 MANIFEST = dict(
     level="proof",
     text=("PARTIAL. Proved (Lean 4, all inputs): bounds-instrumented executable models of _jbl_unescape_json_string (both passes), "
@@ -43,6 +43,8 @@ THEOREMS = [
     "IwModel.C17.afcmp_safe", "IwModel.C17.hex2bin_safe", "IwModel.C17.revm_safe", "IwModel.C17.gen_side_conditions",
     "IwModel.C17.reparse_safe", "IwModel.C17.reparse_empty_pattern_overruns", "IwModel.C17.recompile_program_wf", "IwModel.C17.compiled_program_safe",
     "IwModel.C17.compiled_program_safe_within_limits", "IwModel.C17.reparse_tree_bounded", "IwModel.C17.refront_overflow_witnesses",
+    "IwModel.C17.ini_sizes_ok", "IwModel.C17.ini_stream_spec", "IwModel.C17.ini_stream_safe", "IwModel.C17.ini_string_spec", "IwModel.C17.ini_string_safe",
+    "IwModel.C17.ini_string_junk_indep", "IwModel.C17.ini_wellformed_lines", "IwModel.C17.replace_safe", "IwModel.C17.replace_eq_reference",
 ]
 
 H = lambda b: binascii.hexlify(bytes(b)).decode() or "-"
@@ -744,7 +746,203 @@ def vm_cases(ctx, h, r, npat, ntext):
     return cases
 
 
-MODELLED = [(case_unesc, 6), (case_key, 3), (case_ptr, 5), (case_ftoa, 4), (case_itoa, 1.5), (case_atoi2, 2), (case_afcmp, 3), (case_hex, 2)]
+
+def repl_ref(data, keys):
+    def m(k):
+        return {b"n": k, b"e": b"", b"k": b"kk-longer-than-the-key-kk"}.get(k[:1], b"<R>")
+    for k in keys:
+        if k:
+            data = data.replace(k, m(k))
+    return data
+
+
+# ---------------------------------------------------------------- ini parser (modelled: Model/Ini.lean)
+
+INI = dict(line=200, num=200, sec=127, name=127)      # refreshed from the translator probe in run()
+INI_SPACE = b" \t\n\x0b\x0c\r"
+
+
+def ini_find(s, chars):
+    """offset of the first byte of `chars`, or of a ';' that follows a blank, or len(s)"""
+    m = re.search(rb"[" + re.escape(chars) + rb"]|(?<=[ \t\n\x0b\x0c\r]);" if chars else rb"(?<=[ \t\n\x0b\x0c\r]);", s, re.S)
+    return m.start() if m else len(s)
+
+
+def ini_ref(pieces):
+    """reference splitter over the strings the reader delivers: (error line, [(section, name, value)]); the handler refuses the
+    name `bad` and values starting with `!`"""
+    section, prev, err, evs = b"", b"", 0, []
+
+    def call(name, value, no):
+        nonlocal err
+        evs.append((section, name, value))
+        if (name == b"bad" or value[:1] == b"!") and not err:
+            err = no
+    for no, raw in enumerate(pieces, 1):
+        raw = raw.split(b"\0")[0]
+        off = 3 if no == 1 and raw[:3] == b"\xef\xbb\xbf" else 0
+        body = raw[off:].rstrip(INI_SPACE)
+        t = body.lstrip(INI_SPACE)
+        if not t or t[:1] in (b";", b"#"):
+            continue
+        if prev and off + len(body) - len(t) > 0:
+            call(prev, t, no)
+        elif t[:1] == b"[":
+            e = 1 + ini_find(t[1:], b"]")
+            if t[e:e + 1] == b"]":
+                section, prev = t[1:e][:INI["sec"] - 1], b""
+            elif not err:
+                err = no
+        else:
+            e = ini_find(t, b"=:")
+            if t[e:e + 1] in (b"=", b":"):
+                name, rest = t[:e].rstrip(INI_SPACE), t[e + 1:]
+                value = rest[:ini_find(rest, b"")].strip(INI_SPACE)
+                prev = name[:INI["name"] - 1]
+                call(name, value, no)
+            elif not err:
+                err = no
+    return err, evs
+
+
+def ini_pieces(text):
+    """how ini_reader_string cuts a C string: up to and including the next newline, at most num - 1 bytes"""
+    text = text.split(b"\0")[0]
+    out, i, n = [], 0, INI["num"] - 1
+    while i < len(text) and n >= 1:
+        j = text.find(b"\n", i, i + n)
+        k = j + 1 if j >= 0 else min(len(text), i + n)
+        out.append(text[i:k])
+        i = k
+    return out
+
+
+def ini_oracle(tag, pieces, what):
+    exp_err, exp_evs = ini_ref(pieces)
+
+    def oracle(out):
+        w = out[0].split()
+        if w[0] != tag or len(w) < 3 or not w[1].lstrip("-").isdigit():
+            return "ini parser: unreadable result `%s` for %r" % (out[0][:200], what[:300])
+        got = [tuple(U(x) for x in ev.split("/")) for ev in w[3:]]
+        if int(w[1]) != exp_err or int(w[2]) != len(exp_evs) or got != exp_evs[:64]:
+            d = next((i for i, (a, b) in enumerate(zip(got, exp_evs)) if a != b), min(len(got), len(exp_evs)))
+            return ("ini parser on %r: returned %s with %s handler calls, the reference splitter gives %d with %d calls; first difference at call %d: %r vs %r"
+                    % (what[:400], w[1], w[2], exp_err, len(exp_evs), d, got[d:d + 1], exp_evs[d:d + 1]))
+        return None
+    return oracle
+
+
+def gen_ini_line(r):
+    k = r.randrange(16)
+    sp = lambda: bytes(r.choice(b"  \t") for _ in range(r.choice([0, 0, 1, 2])))
+    nm = bytes(r.choice(b"abckey_1 .") for _ in range(r.randrange(0, 9)))
+    val = bytes(r.choice(b"xyz 09;#=:[]\t\"!") for _ in range(r.randrange(0, 14)))
+    if k < 4:
+        return sp() + nm + sp() + r.choice([b"=", b":"]) + sp() + val + sp()
+    if k == 4:
+        return sp() + b"[" + nm + r.choice([b"]", b"]", b"", b"] ; c", b"]]", b" ]x", b" ;]", b";]"]) + sp()
+    if k == 5:
+        return r.choice([b";", b"#", b" ;", b"\t#"]) + val
+    if k == 6:
+        return r.choice([b" ", b"  ", b"\t"]) + val          # continuation of the previous value (or an indented pair)
+    if k == 7:
+        return nm                                           # no '=' : error line
+    if k == 8:
+        return r.choice([b"bad=1", b"bad = x", b"=v", b"k=", b"k = v ; comment", b"k=v;nocomment", b"k= ;c", b"k=;c", b"[s]", b"k=!no", b" !x", b"k = a = b : c",
+                         b"k:v", b"[]", b"[ ]", b"[a]b", b"[;]", b"x ;=1", b"x ; =1", b"\xef\xbb\xbfk=v", b"\xef\xbb", b"\xef", b" \xef\xbb\xbfk=v"])
+    if k == 9:      # around the section / name buffer sizes
+        n = r.choice([INI["sec"] - 2, INI["sec"] - 1, INI["sec"], INI["sec"] + 1, INI["sec"] + 40])
+        c = bytes([r.choice(b"sS")])
+        return r.choice([b"[" + c * n + b"]", c * min(n, INI["num"] - 5) + b"=v", c * min(n, INI["num"] - 5) + b" = v ; c"])
+    if k == 10:     # around the line buffer size
+        n = r.choice([INI["num"] - 4, INI["num"] - 3, INI["num"] - 2, INI["num"] - 1, INI["num"], INI["num"] + 1, 2 * INI["num"] - 3, 2 * INI["num"] - 2, 2 * INI["num"] - 1, 2 * INI["num"], 5 * INI["num"]])
+        head = r.choice([b"k=", b"[", b"", b" ", b"k", b"[s]"])
+        return head + bytes(r.choice(r.choice([b"a", b"ab =;]", b"a ", b" "])) for _ in range(max(0, n - len(head))))
+    if k == 11:
+        return bytes(r.choice(b"ab[]=:;# \t\x01\x80\xff\r") for _ in range(r.randrange(0, 20)))
+    if k == 12:
+        return r.choice([b"", b"", b" ", b"\t \t", b"\r"])
+    return sp() + nm + r.choice([b"=", b" = ", b":"]) + val + r.choice([b" ;c", b" ; c ; d", b";c", b"\t;", b" #c", b""])
+
+
+def gen_ini_text(r):
+    lines = [gen_ini_line(r) for _ in range(r.choice([0, 1, 2, 3, 5, 8, 12]))]
+    txt = b"".join(ln + r.choice([b"\n", b"\n", b"\n", b"\r\n", b"\n\n"]) for ln in lines)
+    if lines and r.random() < 0.3:
+        txt = txt.rstrip(b"\n")
+    k = r.randrange(10)
+    if k == 0:
+        txt = mutate(r, txt)
+    elif k == 1:
+        txt = b"\xef\xbb\xbf" + txt
+    elif k == 2:
+        txt = r.choice([b" ", b"\n", b"\xef\xbb", b" \xef\xbb\xbf"]) + txt
+    return txt
+
+
+def case_inis(r):
+    txt = gen_ini_text(r)
+    return Case("inis", ["inis " + H(txt)], ini_oracle("inis", ini_pieces(txt), txt), key=("inis", txt))
+
+
+def case_inif(r):
+    """iwini_parse_stream with a reader that delivers arbitrary strings (NULs inside, no newline, full-size)"""
+    fills = []
+    for _ in range(r.choice([0, 1, 2, 3, 5, 9])):
+        f = gen_ini_line(r) + r.choice([b"", b"\n", b"\n", b"\r\n"])
+        k = r.randrange(8)
+        if k == 0:
+            pos = r.randrange(len(f) + 1)
+            f = f[:pos] + b"\0" + f[pos:]
+        elif k == 1:
+            f = mutate(r, f)
+        elif k == 2:
+            f = f + b"\0" + gen_ini_line(r)
+        fills.append(f[:INI["num"] - 1])
+    return Case("inif", ["inif " + " ".join(H(f) for f in fills)] if fills else ["inif"], ini_oracle("inif", fills, b" | ".join(fills)), key=("inif", tuple(fills)))
+
+
+# ---------------------------------------------------------------- iwu_replace (modelled: Model/Repl.lean)
+
+def case_replm(r):
+    alpha = r.choice([b"abnek xyab", b"ab", b"aab", b"kne<R>"])
+    data = bytes(r.choice(alpha) for _ in range(r.choice([0, 1, 2, 3, 5, 16, 17, 40, 200])))
+    keys = []
+    for _ in range(r.choice([0, 1, 1, 2, 2, 3, 5])):
+        keys.append(r.choice([b"", b"a", b"ab", b"aa", b"aba", b"b", b"n", b"na", b"e", b"eb", b"k", b"kx", b"kk", b"x", b"xy", b"<R>", b"R", b"<", b"zzz", b"-", b"kk-",
+                              data[:1], data[:3], data[-2:], data[1:4], data, data + b"a"]))
+    dl = len(data)
+    clean = True
+    k = r.randrange(10)
+    if k == 0 and data:
+        dl, clean = r.randrange(len(data) + 1), False          # datalen shorter than the string: matches may straddle / lie behind datalen
+    elif k == 1:
+        pos = r.randrange(len(data) + 1)
+        data, clean = data[:pos] + b"\0" + data[pos:], False   # NUL inside data[0..datalen)
+        dl = len(data)
+    elif k == 2:
+        keys = [kk + r.choice([b"", b"\0x"]) for kk in keys]   # what follows the terminator of a key is not looked at
+    eff = [kk.split(b"\0")[0] for kk in keys]
+
+    def oracle(out, data=data, eff=eff, clean=clean, dl=dl):
+        w = out[0].split()
+        if len(w) != 3 or w[1] != "ok":
+            return "iwu_replace(%r, %d, %r) failed: %s" % (data, dl, eff, out[0][:200])
+        if clean:
+            ref = repl_ref(data, eff)
+            if "+" in w[2]:
+                hx, extra = w[2].split("+")
+                got = U(hx)
+                if got != ref[:len(got)] or len(ref) != len(got) + int(extra):
+                    return "iwu_replace(%r, %r): first %d bytes / total length differ from sequential replacement" % (data, eff, len(got))
+            elif U(w[2]) != ref:
+                return "iwu_replace(%r, %r) = %r, sequential replacement gives %r" % (data, eff, U(w[2]), ref)
+        return None
+    return Case("replm" + ("" if clean else "-odd"), ["replm %d %s" % (dl, " ".join([H(data)] + [H(kk) for kk in keys]))], oracle, key=("replm", dl, data, tuple(keys)))
+
+
+MODELLED = [(case_inis, 5), (case_inif, 2.5), (case_replm, 3.5), (case_unesc, 6), (case_key, 3), (case_ptr, 5), (case_ftoa, 4), (case_itoa, 1.5), (case_atoi2, 2), (case_afcmp, 3), (case_hex, 2)]
 
 # ================================================================ exploration (no model)
 
@@ -957,15 +1155,6 @@ def case_ini(r):
     return Case("ini", ["ini " + H(txt)])
 
 
-def repl_ref(data, keys):
-    def m(k):
-        return {b"n": k, b"e": b"", b"k": b"kk-longer-than-the-key-kk"}.get(k[:1], b"<R>")
-    for k in keys:
-        if k:
-            data = data.replace(k, m(k))
-    return data
-
-
 def case_repl(r):
     alpha = b"abnek xyab"
     data = bytes(r.choice(alpha) for _ in range(r.choice([0, 1, 2, 5, 16, 17, 40, 200])))
@@ -1137,6 +1326,21 @@ def explore(ctx, h, drv, n_mod, n_exp, label, fresh=60):
             n = c.impl[2].split()[1]
             if n.isdigit():
                 ctx.hist("front:program<=16" if int(n) <= 16 else "front:program<=128" if int(n) <= 128 else "front:program>128")
+    for c in a_mod:                      # which branches of the ini parser / iwu_replace the modelled cases reached
+        if c.kind in ("inis", "inif") and c.impl and len(c.impl) == 2:
+            w = c.impl[1].split()
+            if len(w) >= 3 and w[2].isdigit():
+                ctx.hist("ini:handler-calls>0" if int(w[2]) else "ini:no-handler-call")
+                ctx.hist("ini:error-line" if w[1] != "0" else "ini:no-error")
+                txt = U(c.ops[1].split()[1]) if c.kind == "inis" and len(c.ops[1].split()) > 1 else b""
+                if any(len(ln) >= INI["num"] - 1 for ln in txt.split(b"\n")):
+                    ctx.hist("ini:line-longer-than-buffer")
+                if any(len(ev.split("/")[0]) >= 2 * (INI["sec"] - 1) for ev in w[3:]):
+                    ctx.hist("ini:section-name-truncated")
+                if any(ev.split("/")[0] != "-" for ev in w[3:]):
+                    ctx.hist("ini:in-section")
+        if c.kind.startswith("replm") and c.impl and len(c.impl) == 2:
+            ctx.hist("replm:changed" if c.impl[1].split()[-1] != c.ops[1].split()[2] else "replm:unchanged")
     crashed = {id(c) for c, p in probs if p[0] == "crash"}
     # run B: the same inputs in another order, no perturbation; run F: a sample in a fresh process each
     allc = [(a, b) for a, b in zip(a_mod + a_exp, mod + exp) if id(a) not in crashed and a.impl is not None]
@@ -1190,6 +1394,9 @@ def run(ctx):
                         "libc snprintf(\"%.8Lf\"/\"%.17Lg\") results are inputs of the ftoa model (computed by the generator with Python's exact formatting)",
                         "regex repetition counts and pattern nesting are kept small in the random streams (estimated program size <= 30000 instructions: the model has no allocation failure); the three open findings are exercised by fixed witnesses"]
     ctx.translate()
+    from translate import gen
+    consts, _ = gen.run_probe("probe_ini")      # sizes for the ini generators and the reference splitter (same probe as the translator)
+    INI.update(line=consts["INI_MAX_LINE"], num=consts["INI_READER_NUM"], sec=consts["INI_MAX_SECTION"], name=consts["INI_MAX_NAME"])
     ok, drv_ok = ctx.prove(MODULE, THEOREMS)
     impl = C.build_impl("asan")
     h = C.build_harness(impl, "h_c17", ["h_c17.c"], exclude=("iwjser.c",))
